@@ -242,6 +242,11 @@ func (w *World) DropSubscription() {
 	w.mu.Lock()
 	st := w.sub
 	w.sub = nil
+	// a master recovers the offers outstanding to a framework that disconnects (accepting one
+	// of them later fails as for any unknown offer); fresh ones follow the re-subscription
+	for id := range w.Offers {
+		delete(w.Offers, id)
+	}
 	w.mu.Unlock()
 	if st != nil && !st.closed {
 		st.closed = true
@@ -386,6 +391,11 @@ func (w *World) sendOffersFor(after time.Duration, agents []*Agent) {
 			simrt.Sleep(d)
 		}
 		w.mu.Lock()
+		if w.sub == nil {
+			// a master makes no offers to a framework that is not connected
+			w.mu.Unlock()
+			return
+		}
 		var list []mesos.Offer
 		for _, a := range agents {
 			if a.Lost {
